@@ -461,3 +461,16 @@ func MustPassBetween(fn *ssa.Function, from, target ssa.Instruction, pred func(s
 	}
 	return true
 }
+
+// FieldNameOf returns the declared name of the field a FieldAddr selects.
+func FieldNameOf(fa *ssa.FieldAddr) string {
+	pt, ok := fa.X.Type().Underlying().(*types.Pointer)
+	if !ok {
+		return ""
+	}
+	st, ok := pt.Elem().Underlying().(*types.Struct)
+	if !ok || fa.Field >= st.NumFields() {
+		return ""
+	}
+	return st.Field(fa.Field).Name()
+}
